@@ -91,7 +91,7 @@ def get_operator(live, dom, prod, k, cache={}):
 def build(case):
     dom = case['dom']
     spec = {'kind': 'param', 'curve': dom, 'ts': case['ts'], 'xs': [float(i) for i in range(9)] if dom == 'LShape' else None}
-    live = Live(spec)
+    live = Live(spec, min_hx=1e-4)
     for op in case['ops']:
         apply_op(live, op, cap=200)
     return live, spec
